@@ -197,6 +197,23 @@ class IterVal:
         return "<iterator>"
 
 
+class BufVal:
+    """Abstract byte buffer: a concatenation of segments (source name, lo, hi) with linear byte offsets.
+    'orig' is the receiver's buffer at entry; any other name is a buffer passed in."""
+
+    def __init__(self, segs):
+        self.segs = [(s_, lo, hi) for s_, lo, hi in segs]
+
+    def length(self):
+        tot = Lin.num(0)
+        for _, lo, hi in self.segs:
+            tot = tot + (hi - lo)
+        return tot
+
+    def __repr__(self):
+        return " + ".join("%s[%r:%r]" % x for x in self.segs) or "b''"
+
+
 class SetVal:
     def __init__(self, items=()):
         self.items = list(items)
@@ -1405,6 +1422,12 @@ class Interp:
         base = self.eval(e.value, env)
         if isinstance(base, (Builtin, Opaque)):
             return Opaque("typing expression")  # List[...], Tuple[...] inside cast()
+        if isinstance(e.slice, ast.Slice) and isinstance(base, BufVal):
+            if e.slice.step is not None:
+                raise Undecided("extended slice of a byte buffer")
+            lo_v = self.eval(e.slice.lower, env) if e.slice.lower is not None else None
+            hi_v = self.eval(e.slice.upper, env) if e.slice.upper is not None else None
+            return self._buf_slice(base, lo_v, hi_v, e)
         if isinstance(e.slice, ast.Slice):
             lo = self.index(self.eval(e.slice.lower, env)) if e.slice.lower is not None else None
             hi = self.index(self.eval(e.slice.upper, env)) if e.slice.upper is not None else None
@@ -1435,6 +1458,32 @@ class Interp:
             if m is not None:
                 return self.call_function(m, [base, k], {})
         raise Undecided("subscript of %r" % (base,))
+
+    def _buf_slice(self, buf: BufVal, lo, hi, node=None):
+        """buf[lo:hi] for non-negative linear offsets (Python clamps to the buffer's length)."""
+        total = buf.length()
+        a = Lin.num(0) if lo is None else self.num(lo, node)
+        b = total if hi is None else self.num(hi, node)
+
+        def sgn(x, y):
+            return self.sign(x, y, node)  # raises NeedSplit when the abstract state does not decide it
+        if sgn(a, Lin.num(0)) < 0 or sgn(b, Lin.num(0)) < 0:
+            raise Undecided("negative byte-buffer index")
+        if sgn(a, total) > 0:
+            a = total
+        if sgn(b, total) > 0:
+            b = total
+        out = []
+        acc = Lin.num(0)
+        for src, slo, shi in buf.segs:
+            seg_end = acc + (shi - slo)
+            # intersection of [a, b) with [acc, seg_end)
+            start = a if sgn(a, acc) > 0 else acc
+            end = b if sgn(b, seg_end) < 0 else seg_end
+            if sgn(start, end) < 0:
+                out.append((src, slo + (start - acc), slo + (end - acc)))
+            acc = seg_end
+        return BufVal(out)
 
     def e_Tuple(self, e, env):
         return Tup(self._elts(e.elts, env))
@@ -1617,6 +1666,8 @@ class Interp:
                 return Tup(a.items + b.items)
             if isinstance(a, (str, Str)) and isinstance(b, (str, Str)):
                 return mkcat([a, b])
+            if isinstance(a, BufVal) and isinstance(b, BufVal):
+                return BufVal(a.segs + b.segs)
             return self.num(a, node) + self.num(b, node)
         if isinstance(op, ast.Sub):
             return self.num(a, node) - self.num(b, node)
@@ -1668,6 +1719,11 @@ class Interp:
             if isinstance(op, (ast.Mod, ast.FloorDiv)) and y == 0:
                 raise PyRaise("ZeroDivisionError", node)
             return Lin.num({ast.Mod: lambda: x % y, ast.FloorDiv: lambda: x // y, ast.BitOr: lambda: x | y, ast.BitAnd: lambda: x & y}[type(op)]())
+        if isinstance(op, ast.FloorDiv) and isinstance(a, Lin) and isinstance(b, Lin) and b.is_const() and b.const != 0:
+            q = a.scale(1 / b.const)
+            if all(v.denominator == 1 for v in list(q.coef.values()) + [q.const]):
+                return q  # exact: every coefficient is a multiple of the divisor (symbols stand for whole numbers here)
+            raise Undecided("floor division of %r by %r" % (a, b))
         if isinstance(op, (ast.BitAnd, ast.BitOr)):
             x, y = self.truth(a), self.truth(b)
             return (x and y) if isinstance(op, ast.BitAnd) else (x or y)
@@ -1791,6 +1847,8 @@ class Interp:
                 return Lin.num(len(v.d))
             if isinstance(v, str):
                 return Lin.num(len(v))
+            if isinstance(v, BufVal):
+                return v.length()
             if isinstance(v, ObjVal):
                 m = v.cls.lookup("__len__")
                 if m:
